@@ -80,6 +80,19 @@ CLAIMED = {
              'decided here (C02). Known findings: PM1<-K Auger sum omits 22 terms (F15); M-M lines outside line_mappings (F22).',
         technique='path-sensitive abstract interpretation + exact polynomial normal forms vs name-derived multisets',
     ),
+    'C05': dict(
+        category='other',
+        text='Identity shapes decided on the abstract paths of all ~40 aggregate / unit-variant entry points (twins '
+             'discovered by name): barn twin = cm2/g twin(same arguments in order) x A/N_A with both factors tested before '
+             'use and the error slot forwarded; CS_Total / CS_Total_Kissel = sum of exactly their three parts, each part '
+             'tested (no partial sum on any path); CSb_Photo_Total adds partial x occupancy over all Kissel shells under an '
+             'occupancy guard; DCS[P]_Rayl / DCS[P]_Compt = N_A/A x F^2 (S) x Thomson (KN) at q(E, theta). Exact rational '
+             'normal forms; a swapped argument, dropped factor, * vs / or an untested part changes one obligation.',
+        design_ref='DESIGN.md section 2, C05',
+        note='Trusted: clang front end, E1 path enumeration, E2 normal forms. Not decided: numerical agreement to a '
+             'tolerance (follows from the shapes up to rounding).',
+        technique='path-sensitive abstract interpretation with exact rational normal forms; sibling (twin) agreement',
+    ),
 }
 
 NOT_YET = {}
